@@ -215,3 +215,65 @@ pub fn vx_lookup_test<'a>(t: &'a Tera, name: &str) -> (r: &'a StoredTest) ensure
 /// `Kwargs::new(kwargs.into_map_arc().unwrap())`: the compiler always builds the kwargs map (assumed)
 #[verifier::external_body]
 pub fn vx_kwargs_of(k: Value) -> (r: Kwargs) ensures kw_of(&r) == k { unimplemented!() }
+
+// ---- inheritance dispatch (C04): RenderBlock and super()
+/// the lineage the registry computed for a block of this VM's template (most-derived first);
+/// None when absent or empty (finalize_templates builds it: not decided here)
+pub uninterp spec fn lineage_spec(t: &Template, block: Seq<char>) -> Option<&Vec<Chunk>>;
+#[verifier::external_body]
+pub fn vx_lineage_of<'a>(t: &'a Template, block: &String) -> (r: Option<&'a Vec<Chunk>>)
+    ensures r == lineage_spec(t, block@), r is Some ==> r->Some_0.len() > 0
+{ unimplemented!() }
+/// Option::replace
+#[verifier::external_body]
+pub fn vx_option_replace<T>(o: &mut Option<T>, v: T) -> (r: Option<T>)
+    ensures r == *old(o), *final(o) == Some(v)
+{ unimplemented!() }
+#[verifier::external_body]
+pub fn vx_opt_str_eq(a: Option<&str>, b: Option<&str>) -> (r: bool) ensures r == ((a is None && b is None) || (a is Some && b is Some && a->Some_0@ == b->Some_0@)) { unimplemented!() }
+/// `blocks.iter().rposition(|e| e.0 == name).expect(..)`: the topmost entry for that block
+#[verifier::external_body]
+pub fn vx_rposition_block<'t>(blocks: &Vec<(&'t str, &'t Vec<Chunk>, usize)>, name: &str) -> (r: usize)
+    requires exists|i: int| 0 <= i < blocks.len() && #[trigger] blocks[i].0@ == name@
+    ensures r < blocks.len(), blocks[r as int].0@ == name@,
+            forall|i: int| r < i < blocks.len() ==> #[trigger] blocks[i].0@ != name@
+{ unimplemented!() }
+/// `blocks[pos].2 = level`
+#[verifier::external_body]
+pub fn vx_set_level<'t>(blocks: &mut Vec<(&'t str, &'t Vec<Chunk>, usize)>, pos: usize, level: usize)
+    requires pos < old(blocks).len()
+    ensures final(blocks)@ == old(blocks)@.update(pos as int, (old(blocks)[pos as int].0, old(blocks)[pos as int].1, level))
+{ unimplemented!() }
+/// `std::mem::take(&mut state.capture_buffers)`
+#[verifier::external_body]
+pub fn vx_take_caps(v: &mut Vec<VxWriter>) -> (r: Vec<VxWriter>)
+    ensures r == *old(v), final(v).len() == 0
+{ unimplemented!() }
+#[verifier::external_body]
+pub struct StoredFunction { _p: () }
+impl StoredFunction {
+    pub uninterp spec fn safe_spec(&self) -> bool;
+    #[verifier::external_body]
+    pub fn is_safe(&self) -> (r: bool) ensures r == self.safe_spec() { unimplemented!() }
+    #[verifier::external_body]
+    pub fn call(&self, kwargs: Kwargs, state: &State) -> TeraResult<Value> { unimplemented!() }
+}
+pub uninterp spec fn function_named(t: &Tera, name: Seq<char>) -> StoredFunction;
+#[verifier::external_body]
+pub fn vx_lookup_function<'a>(t: &'a Tera, name: &str) -> (r: &'a StoredFunction) ensures *r == function_named(t, name@) { unimplemented!() }
+impl<'tera> VirtualMachine<'tera> {
+    /// re-entry into the interpreter (RenderBlock, super()): the inductive hypothesis — it leaves the
+    /// block bookkeeping, the current chunk, the capture stack depth and the value stack as it found
+    /// them (each arm restores what it changes; assumed here, proved per arm where extracted)
+    #[verifier::external_body]
+    pub fn interpret(&self, state: &mut State<'tera>, output: &mut VxWriter) -> (r: TeraResult<()>)
+        ensures
+            final(state).blocks == old(state).blocks,
+            final(state).current_block_name == old(state).current_block_name,
+            final(state).chunk == old(state).chunk,
+            final(state).capture_buffers@.len() == old(state).capture_buffers@.len(),
+            final(state).stack == old(state).stack,
+            final(state).capture_block == old(state).capture_block,
+            old(output).bytes@.is_prefix_of(final(output).bytes@),
+    { unimplemented!() }
+}
